@@ -21,6 +21,8 @@ outcome: T | F | EMPTY | 1 | 0 | ERR:<code> | ERR:OTHER:<PyClass> | UNSUPPORTED
 -/
 import EPV.Proto
 import EPV.Spec.FOCompare
+import EPV.Spec.FOCompareSeqC
+import EPV.Spec.FOCompareCompatC
 import EPV.Lemmas.CompareFindings
 open EPV.Proto EPV.Cmp
 
@@ -172,9 +174,17 @@ def answer (line : String) : String :=
         -- (`collation_codepoint`: then these are generalCmpCtx / valueCmpCtx / generalAllowedCtx / valueAllowedCtx)
         let c : Coll := if field fs "c" == "ci" then .asciiCI else .codepoint
         if k == "G" then
-          s!"model={showR (generalCmpC c itz m op l r)} spec={showAllowed (EPV.CmpSpec.generalAllowedC c itz m op l r)} trig={showTrig (EPV.CmpFind.trigGeneral m op l r)}"
+          -- phase 5: XPath2Parser(compatibility_mode=True) is specified under every collation by `generalAllowedCompatC`
+          -- (= generalAllowedCtx for the codepoint collation: `compat_collation_codepoint`); crule= the rule that decides
+          let spec := if m == .v2c then EPV.CmpSpec.generalAllowedCompatC c itz op l r else EPV.CmpSpec.generalAllowedC c itz m op l r
+          let crule := if m == .v2c then
+              (if EPV.CmpSpec.isSingleBoolS (l.map (EPV.CmpSpec.withImplicitTz itz)) || EPV.CmpSpec.isSingleBoolS (r.map (EPV.CmpSpec.withImplicitTz itz)) then "boolean"
+               else if op.isOrd then "number" else "pairs") else "-"
+          s!"model={showR (generalCmpC c itz m op l r)} spec={showAllowed spec} trig={showTrig (EPV.CmpFind.trigGeneral m op l r)} crule={crule}"
         else if k == "V" then
-          s!"model={showOR (valueCmpC c itz m op l r)} spec={showAllowed (EPV.CmpSpec.valueAllowedC c itz m op l r)} trig={showTrig (EPV.CmpFind.trigValue m op l r)}"
+          -- phase 5: rule= which of the rules 2-4 of §3.7.1 applies (`seqRule`), spec2= the permitted outcomes
+          -- written through the pair rule `pairSpecC` (`valueSeqAllowedC`; = spec by `value_seq_spec_coherent`)
+          s!"model={showOR (valueCmpC c itz m op l r)} spec={showAllowed (EPV.CmpSpec.valueAllowedC c itz m op l r)} trig={showTrig (EPV.CmpFind.trigValue m op l r)} rule={(EPV.CmpSpec.seqRule itz m l r).tag} spec2={showAllowed (EPV.CmpSpec.valueSeqAllowedC c itz m op l r)}"
         else "bad-kind"
   | _, _ => "bad-line"
 
